@@ -204,12 +204,21 @@ def run_check(prop, module, tier, seed):
     t0 = time.time()
     spec = module.build(tier, seed)
     obs = spec['obligations']
+    # engine guard: executor + torch shim against real torch on the functions this property puts under contract
+    try:
+        from contracts import conformance
+        cob = conformance.conformance_ob(prop, seed)
+        if cob is not None:
+            obs = list(obs) + [cob]
+    except ImportError:
+        pass
     verdicts = run_obligations(obs)
     findings = load_known_findings()
     violations = []
     known_hit = []
     undecided = []
     canary_fail = []
+    notes = []
     n_real = 0
     n_discharged = 0
     n_bounded = 0
@@ -229,7 +238,14 @@ def run_check(prop, module, tier, seed):
                 canary_fail.append(ob.id)
             continue
         if ob.kind == 'cover':
-            if v.status != 'proved':
+            if ob.id.startswith('ENG/conformance'):
+                # executor-vs-real-torch guard: a disagreement voids the run; "could not run the snippet" (e.g. changed code
+                # uses an operation outside the shim) only means the guard did not apply
+                if v.status == 'refuted':
+                    canary_fail.append(ob.id)
+                elif v.status != 'proved':
+                    notes.append('ENGINE-NOTE property=%s conformance guard not applicable: %s' % (prop, (v.detail or '')[:200].replace('\n', ' ')))
+            elif v.status != 'proved':
                 canary_fail.append(ob.id)
             continue
         by_kind[ob.kind] = by_kind.get(ob.kind, 0) + 1
@@ -276,6 +292,7 @@ def run_check(prop, module, tier, seed):
         replayed = bool(v.replay and v.replay.get('confirmed'))
         lines.append('VIOLATION property=%s replay=%s%s' % (prop, path, '' if replayed else ' no-failing-input-found'))
         exit_code = 1
+    lines += notes
     if canary_fail:
         lines.append('ENGINE-UNSOUND property=%s canary/cover failed: %s' % (prop, ', '.join(canary_fail)))
         exit_code = max(exit_code, 3) if exit_code != 1 else 1
